@@ -205,6 +205,19 @@ class Engine:
             return True
         return r == z3.sat
 
+    def unique_value(self, st, term, timeout_ms=2000):
+        """the single value a bit-vector term can take under the path condition, or None (two one-shot solver calls)"""
+        t = z3.simplify(term)
+        if z3.is_bv_value(t):
+            return t
+        s = z3.Solver(); s.set('timeout', timeout_ms)
+        s.add(*st.pc); s.add(*self.axioms)
+        if s.check() != z3.sat:
+            return None
+        v = s.model().eval(t, model_completion=True)
+        s.add(t != v)
+        return v if s.check() == z3.unsat else None
+
     def _is_light(self, c):
         if isinstance(c, bool):
             return True
@@ -314,8 +327,8 @@ class Engine:
                 return v.caps[p[1]]
             if isinstance(v, Obj):
                 return self.obj_field(st, v, p[1])
-            if isinstance(v, Str):
-                return v        # Box<str> / Unique / NonNull / String wrappers around a str are transparent
+            if isinstance(v, (Str, Ref)):
+                return v        # Box / Unique / NonNull / String wrappers around a pointer are transparent
             if v is None:
                 raise ValueError('read of uninitialised place')
             raise ValueError(f'field {p[1]} of {v!r}')
@@ -1305,6 +1318,12 @@ class Engine:
             # identical signatures (e.g. a cfg-duplicated or macro-duplicated helper): bodies must also agree textually
             if all(b.blocks == best[0].blocks for b in best):
                 best = best[:1]
+        if len(best) > 1 and tr is not None and tr.split('<')[0] in ('Display', 'Debug') and callee.strip().endswith('::fmt'):
+            # Display and Debug impls generated at one macro span share a signature: tell them apart by what they delegate to
+            dbg = lambda b: bool(re.search(r'std::fmt::Debug>::fmt|Formatter::<[^>]*>::debug_|::debug_(?:struct|tuple|list|map|set)', str(b.blocks)))
+            pick = [b for b in best if dbg(b) == (tr.split('<')[0] == 'Debug')]
+            if len(pick) == 1:
+                best = pick
         if len(best) != 1:
             raise Inconclusive(f'ambiguous overload for {callee}: {len(best)} bodies score {score}: ' + ' | '.join(b.name[-60:] + str([t for _, t in b.args]) for b in best[:4]))
         self.parse_cache[key] = best[0]
